@@ -246,3 +246,20 @@ def _c20_run(prop, tier):
 
 
 CHECKS["C20"] = {"run": _c20_run, "replay": _case_replay}
+
+
+def _c05_run(prop, tier):
+    t0 = time.time()
+    fam = fam_codec.meta_family(tier)
+    return _codec_finish(prop, tier, fam, t0,
+        "case = one delivery of a random SETCLUSTER/SETREPL message (epoch 1..4 equal/lower/higher, FORCE, two contents, foreign host) in a "
+        "sequence delivered to a real proxy, followed by GETEPOCH, a routing probe and INFOREPL; or one concurrent batch of 2-3 deliveries plus a "
+        "reader thread (GETEPOCH then routing/roles) run on real threads under the hook-driven scheduler (hooks inside set_meta / update_replicators); "
+        "non-trivial iff refused/forced (sequential) or a distinct thread schedule (concurrent)",
+        ["the replication epoch is not observable through any command: for SETREPL the monitor uses replies and INFOREPL content only",
+         "a routing probe that gets an error reply while metadata is being swapped is treated as 'no observation'",
+         "concurrent schedules are sampled (seeded random), the sequential design is model-checked exhaustively up to 4 deliveries"],
+        "sequential message alphabet fully covered by the model checker up to length 4; implementation sequences sampled")
+
+
+CHECKS["C05"] = {"run": _c05_run, "replay": _case_replay}
